@@ -1299,6 +1299,8 @@ pub mod verif_hooks {
     static COORD_CONSUMED: AtomicUsize = AtomicUsize::new(0);
     static WORKERS_EXITED: AtomicUsize = AtomicUsize::new(0);
     static COORD_EXITED: AtomicUsize = AtomicUsize::new(0);
+    /// bit i set = every thread reaching `yield_point(i)` waits there until the bit is cleared.
+    static HOLD_MASK: AtomicU64 = AtomicU64::new(0);
     /// 0 = perturbation off; u64::MAX = not initialised (read `KOLIBRIE_VERIF_SCHED_SEED` once).
     static SCHED_STATE: AtomicU64 = AtomicU64::new(u64::MAX);
 
@@ -1308,6 +1310,13 @@ pub mod verif_hooks {
         COORD_CONSUMED.store(0, Ordering::SeqCst);
         WORKERS_EXITED.store(0, Ordering::SeqCst);
         COORD_EXITED.store(0, Ordering::SeqCst);
+        HOLD_MASK.store(0, Ordering::SeqCst);
+    }
+    /// Hold back the threads that reach the yield-point sites whose bits are set in `mask` (site 1-2: window
+    /// worker loop, site 3-4: coordinator loop) until a later call clears the bits: a deterministic "lagging
+    /// worker / lagging coordinator" schedule.  `hold_sites(0)` releases everything.
+    pub fn hold_sites(mask: u64) {
+        HOLD_MASK.store(mask, Ordering::SeqCst);
     }
     /// Seed of the schedule perturbation; 0 switches it off.
     pub fn set_schedule_seed(seed: u64) {
@@ -1343,6 +1352,9 @@ pub mod verif_hooks {
     }
     /// Seeded perturbation of the thread schedule: nothing, `yield_now`, or a short sleep.
     pub(crate) fn yield_point(site: u64) {
+        while site < 64 && HOLD_MASK.load(Ordering::SeqCst) & (1u64 << site) != 0 {
+            std::thread::sleep(std::time::Duration::from_micros(50));
+        }
         let mut st = SCHED_STATE.load(Ordering::Relaxed);
         if st == u64::MAX {
             st = std::env::var("KOLIBRIE_VERIF_SCHED_SEED")
